@@ -9,7 +9,9 @@ import json, os, re, shutil, subprocess, sys, tempfile, time, hashlib, glob
 VERIF = os.path.dirname(os.path.dirname(os.path.abspath(__file__)))
 REPO = os.environ.get("VERIF_REPO", "/repo")
 REPO_MOD = os.path.join(REPO, "v8")
-BUILD = os.path.join(VERIF, ".build")
+BUILD = os.environ.get("VERIF_BUILD", os.path.join(VERIF, ".build"))
+EVIDENCE_DIR = os.environ.get("VERIF_EVIDENCE_DIR", os.path.join(VERIF, "evidence"))
+REPLAY_DIR = os.environ.get("VERIF_REPLAY_DIR", os.path.join(VERIF, "replays"))
 SPEC = os.path.join(VERIF, "spec")
 TLAJAR = "/opt/veriftools/tla/tla2tools.jar"
 CMJAR = "/opt/veriftools/tla/CommunityModules-deps.jar"
@@ -41,14 +43,18 @@ def ensure_java_classes():
 
 
 def build_harness(race=False):
-    """go build the harness against the *current* working tree of /repo/v8 (tag verif)."""
+    """go build the harness against the *current* working tree of /repo/v8 (tag verif).  The sources are copied to the
+    build directory first, so that go.mod/go.sum are generated there and concurrent builds for different repository
+    copies (VERIF_REPO / VERIF_BUILD) do not interfere."""
     os.makedirs(BUILD, exist_ok=True)
-    hdir = os.path.join(VERIF, "harness")
+    hsrc = os.path.join(VERIF, "harness")
+    hdir = os.path.join(BUILD, "hsrc")
+    subprocess.run(["rsync", "-a", "--delete", "--exclude", "go.mod", "--exclude", "go.sum", hsrc + "/", hdir + "/"], check=True)
     # go.sum comes from the repository so that nothing has to be fetched
     shutil.copyfile(os.path.join(REPO_MOD, "go.sum"), os.path.join(hdir, "go.sum"))
     gomod = os.path.join(hdir, "go.mod")
     want = open(os.path.join(hdir, "go.mod.in")).read().replace("@REPO@", REPO_MOD)
-    if not os.path.exists(gomod) or open(gomod).read() != want:
+    if not os.path.exists(gomod) or "=> " + REPO_MOD + "\n" not in open(gomod).read():
         open(gomod, "w").write(want)
     out = os.path.join(BUILD, "vh-race" if race else "vh")
     cmd = ["go", "build", "-tags", "verif", "-o", out]
@@ -198,9 +204,9 @@ class Run:
         if k is not None:
             self.known_met.setdefault(k["id"], [k, 0])[1] += 1
             return False
-        os.makedirs(os.path.join(VERIF, "replays"), exist_ok=True)
+        os.makedirs(REPLAY_DIR, exist_ok=True)
         h = hashlib.sha1(json.dumps(facts, sort_keys=True).encode()).hexdigest()[:10]
-        path = os.path.join(VERIF, "replays", "%s-%s.json" % (self.prop, h))
+        path = os.path.join(REPLAY_DIR, "%s-%s.json" % (self.prop, h))
         json.dump({"property": self.prop, "facts": facts, "detail": detail, "seed": self.seed, "tier": self.tier},
                   open(path, "w"), indent=1, default=str)
         if path not in [p for _, p in self.violations]:
@@ -216,8 +222,8 @@ class Run:
         cov["known_findings_met"] = {k: v[1] for k, v in self.known_met.items()}
         ev = {"property_id": self.prop, "tier": self.tier, "seed": self.seed, "level": self.level, "coverage": cov,
               "assumptions": self.assumptions, "wall_s": round(wall, 2), "violations": len(self.violations)}
-        os.makedirs(os.path.join(VERIF, "evidence"), exist_ok=True)
-        json.dump(ev, open(os.path.join(VERIF, "evidence", self.prop + ".json"), "w"), indent=1, default=str)
+        os.makedirs(EVIDENCE_DIR, exist_ok=True)
+        json.dump(ev, open(os.path.join(EVIDENCE_DIR, self.prop + ".json"), "w"), indent=1, default=str)
         for k, (f, n) in sorted(self.known_met.items()):
             print("KNOWN-FINDING: property=%s %s (%s; met %d times)" % (self.prop, f["what"], k, n))
         seen = set()
